@@ -2,6 +2,7 @@ package pubsub
 
 import (
 	"fmt"
+	"slices"
 
 	"github.com/libp2p/go-libp2p/core/peer"
 )
@@ -54,6 +55,13 @@ type CacheEntry struct {
 
 func (mc *MessageCache) Put(msg *Message) {
 	mid := mc.msgID(msg)
+	if _, ok := mc.msgs[mid]; ok {
+		// The message is already in the window. Shift drops a message together with
+		// its history entry, so an older entry would expire this one early.
+		for i, entries := range mc.history {
+			mc.history[i] = slices.DeleteFunc(entries, func(e CacheEntry) bool { return e.mid == mid })
+		}
+	}
 	mc.msgs[mid] = msg
 	mc.history[0] = append(mc.history[0], CacheEntry{mid: mid, topic: msg.GetTopic()})
 }
